@@ -37,8 +37,8 @@ pub fn scenarios(thorough: bool) -> Vec<Scenario> {
         Scenario { name: "incremental-remove-of-last-record", before: { let mut b = base.clone(); b.push(format!("set kz {}", "z".repeat(48))); b.push("snapshot false one".into()); b }, mutate: s(&["remove kz", "set ka AAAA"]), snap: "snapshot false one".into(), reclaim: false },
         // every key of the database - the token included - was written or removed since the last snapshot (round 11): an
         // incremental snapshot still only appends and redirects, whatever share of the database is dirty
-        Scenario { name: "incremental-every-key-rewritten", before: base.clone(), mutate: vec![format!("set ka {}", "A".repeat(300)), format!("set kb {}", "B".repeat(300)), format!("set kc {}", "C".repeat(300)), format!("set kd {}", "D".repeat(300)), "set $$token t1".into(), "use-db one t1".into()], snap: "snapshot false one".into(), reclaim: false },
-        Scenario { name: "incremental-every-key-rewritten-or-removed", before: base.clone(), mutate: vec![format!("set ka {}", "A".repeat(300)), "remove kb".into(), format!("set kc {}", "C".repeat(300)), "remove kd".into(), "set $$token t1".into(), "use-db one t1".into()], snap: "snapshot false one".into(), reclaim: false },
+        Scenario { name: "incremental-every-key-rewritten", before: base.clone(), mutate: vec![format!("set ka {}", "A".repeat(300)), format!("set kb {}", "B".repeat(300)), format!("set kc {}", "C".repeat(300)), format!("set kd {}", "D".repeat(300)), "set $$token t1".into(), "set $connections 1".into()], snap: "snapshot false one".into(), reclaim: false },
+        Scenario { name: "incremental-every-key-rewritten-or-removed", before: base.clone(), mutate: vec![format!("set ka {}", "A".repeat(300)), "remove kb".into(), format!("set kc {}", "C".repeat(300)), "remove kd".into(), "set $$token t1".into(), "set $connections 1".into()], snap: "snapshot false one".into(), reclaim: false },
     ];
     if thorough {
         v.push(Scenario { name: "incremental-large-new", before: base.clone(), mutate: vec![format!("set nh {}", big), "set ni 4".into(), "set ka AAAA".into()], snap: "snapshot false one".into(), reclaim: false });
